@@ -108,7 +108,8 @@ def run_case(case) -> Outcome:
                 got = b""
                 i = 0
                 while True:
-                    chunk = fp.read(reads[i % len(reads)])
+                    k = reads[i % len(reads)]
+                    chunk = fp.read() if k is None else fp.read(k)
                     i += 1
                     if not chunk:
                         break
@@ -179,7 +180,8 @@ def boundary_lengths():
     return sorted(s)
 
 
-ROUTES = [(0, None), (0, [7]), (0, [1]), (0, [100]), (1024, None), (1024, [5]), (3, None), (7, [9]), (8192, [64])]
+ROUTES = [(0, None), (0, [7]), (0, [1]), (0, [100]), (1024, None), (1024, [5]), (3, None), (7, [9]), (8192, [64]),
+          (3, [1, None]), (5, [2, 2, None]), (1024, [10, None])]
 
 
 def enum_undisturbed():
@@ -229,7 +231,8 @@ def rand_case(draw, max_len):
     else:
         case["salt"] = draw(st.integers(0, 250))
     case["buffering"] = draw(st.sampled_from([0, 0, 2, 3, 7, 64, 1024, 8192]))
-    case["reads"] = draw(st.one_of(st.none(), st.lists(st.integers(1, 80), min_size=1, max_size=3)))
+    case["reads"] = draw(st.one_of(st.none(), st.lists(st.integers(1, 80), min_size=1, max_size=3),
+                                   st.lists(st.integers(1, 9), min_size=1, max_size=2).map(lambda l: l + [None])))
     kind = draw(st.sampled_from(["none", "none", "drop", "flip", "crc", "end_n", "end_cs"]))
     if kind != "none":
         case["fault"] = {"kind": kind, "k": draw(st.integers(0, max(0, nsegs - 1))),
